@@ -504,6 +504,23 @@ fn fee_pool_bounds_case() -> BoxedStrategy<super::c03::BoundsCase> {
         .boxed()
 }
 
+/// C17's two-pool cases over Token-2022 transfer-fee mints (input, intermediate and output mint each with or without a schedule)
+fn fee_two_hop_case() -> BoxedStrategy<super::c17::TwoHopCase> {
+    (super::c17::case_strategy(), crate::history::tf_strategy(), crate::history::tf_strategy(), crate::history::tf_strategy(), 0u8..8)
+        .prop_map(|(mut c, a, b2, n, drop)| {
+            c.malformed = 0;
+            c.v2 = true;
+            c.hist1.spec.mint_kind = 3;
+            c.spec2.mint_kind = 3;
+            // drop one schedule in some cases so that fee-free intermediate mints (full comparison with the single swaps) occur too
+            c.hist1.spec.tf1 = if drop == 0 { None } else { a.or(Some((100, u64::MAX))) };
+            c.hist1.spec.tf2 = if drop == 1 { None } else { b2.or(Some((250, 5000))) };
+            c.spec2.tf2 = if drop == 2 { None } else { n.or(Some((10_000, 777))) };
+            c
+        })
+        .boxed()
+}
+
 pub fn def() -> CheckDef {
     CheckDef {
         id: "C16",
@@ -511,13 +528,16 @@ pub fn def() -> CheckDef {
                among other TLV entries of a Token-2022 mint, any u64 amount; Anchor helpers (through a real InterfaceAccount<Mint>) and the Pinocchio ports (through a real \
                Pinocchio AccountInfo) must agree; excluded + fee == included; fee == the schedule in force (token program's calculate_fee as ground truth, cross-checked \
                with the harness's own arithmetic); the fee-included request z satisfies z - fee(z) == y and (z-1) - fee(z-1) < y (smallest, by monotonicity).  \
-               Instruction level (`pools` sub-check): pools over real Token-2022 fee mints (fee changes scheduled through the real SetTransferFee, pending or in force, epochs advancing mid-history), swaps / liquidity instructions judged on balances, withheld fees and events.  \
+               Instruction level (`pools` sub-check): pools over real Token-2022 fee mints (fee changes scheduled through the real SetTransferFee, pending or in force, epochs advancing mid-history), swaps / liquidity instructions judged on balances, withheld fees and events; two_hop_swap_v2 over fee mints (`two_hop_thresholds`): thresholds judged on what the trader really receives / pays.  \
                Non-trivial = Ok result with a fee schedule present.",
         assumptions: vec!["H1 re-export hook for the Pinocchio copies", "the Clock sysvar is the harness's thread clock"],
         subs: vec![
             sub("fee_functions", 2_000_000, 200_000_000, fn_case, |c: &FeeFnCase, l: &mut Local| check_fn(c, l)),
             sub("pools", 15_000, 300_000, pool_history_case, |c: &HistoryCase, l: &mut Local| check_pool_history(c, l)),
             sub("pool_swap_thresholds", 10_000, 300_000, fee_pool_bounds_case, |c: &super::c03::BoundsCase, l: &mut Local| super::c03::check_case(c, l)),
+            // two_hop_swap_v2 over fee mints: the threshold is judged on what the trader really receives / pays (realised -1 / 0 / +1),
+            // amount bounds, intermediate nets to zero; with a fee-free intermediate mint also equality with the two single swaps
+            sub("two_hop_thresholds", 12_000, 300_000, fee_two_hop_case, |c: &super::c17::TwoHopCase, l: &mut Local| super::c17::check_case(c, l, false)),
         ],
     }
 }
